@@ -321,7 +321,8 @@ def execute(stim):
         args = [shape['value']] if 'value' in shape else []
         ret = None
         try:
-            ret = edzed.ExtEvent(dest, op.get('etype', 'put')).send(*args, **kw)
+            ckw = {'source': shape['csrc']} if 'csrc' in shape else {}
+            ret = edzed.ExtEvent(dest, op.get('etype', 'put'), **ckw).send(*args, **kw)
             outcome = 'delivered'
         except edzed.EdzedInvalidState:
             outcome = 'invalid'
@@ -337,6 +338,8 @@ def execute(stim):
         if got is not None:
             valok = got.get('value') == shape.get('value')
             restok = all(got.get(k) == v for k, v in shape.get('items', {}).items())
+        if src is None and 'csrc' in shape:
+            src = shape['csrc']         # (the source in effect)
         rec('ext', outcome=outcome, deliv=bool(deliv), retok=bool(ret == 'handled'), src=codes(src) if isinstance(src, str) else [-1],
             got=codes(gs) if isinstance(gs, str) else [-2], valok=bool(valok), restok=bool(restok),
             dest=str(op['dest']))
